@@ -245,6 +245,11 @@ class Project:
         known = set(self.files) | {'//ALWAYS'}
         have_rows = {n: r for n, r in snap['rows'].items() if n in known}
         want_rows = exp['rows']
+        # rowids: only their order matters (candidate .do files above the project consume ids)
+        horder = [n for n in sorted(have_rows, key=lambda n: have_rows[n]['id']) if n != '//ALWAYS']
+        worder = [n for n in sorted(want_rows, key=lambda n: want_rows[n]['id']) if n != '//ALWAYS']
+        if horder != worder:
+            diffs.append('row order: have %s, spec says %s' % (horder, worder))
         # the //ALWAYS row always exists in a real database
         for n in sorted(set(have_rows) | set(want_rows)):
             if n not in want_rows:
